@@ -14,7 +14,7 @@ pub fn run<T>(seed: u64, defer_pct: u64, body: impl Future<Output = T>) -> Optio
     c.begin(MODE_SCHED, seed);
     c.set_defer_percent(defer_pct);
     let rt = tokio::runtime::Builder::new_current_thread()
-        .enable_time()
+        .enable_all()
         .start_paused(true)
         .build()
         .expect("runtime");
